@@ -144,7 +144,15 @@ fn run_wops(ops: &str) -> R<String> {
             ["u32", x] => w.write_u32_be(n(x)? as u32),
             ["u64", x] => w.write_u64_be(n(x)?),
             ["bytes", h] => w.write_bytes(&unhex(h)?),
-            ["at", off, h] => w.write_bytes_at(&unhex(h)?, n(off)? as usize),
+            ["at", off, h] => {
+                // a refused overwrite must leave the buffer as it was: report its content
+                let bs = unhex(h)?;
+                let o = n(off)? as usize;
+                let r = catch_unwind(AssertUnwindSafe(|| w.write_bytes_at(&bs, o)));
+                if r.is_err() {
+                    return Ok(format!("PANIC {}", hex(&w.data)));
+                }
+            }
             _ => return Err(format!("wop: {op}")),
         }
     }
